@@ -222,8 +222,8 @@ fn small_scope(id: &str, max_n: usize) -> Vec<HCase> {
 
 fn rule(id: &str) -> &'static str {
     match id {
-        "C01" => "(a) all scheduler-owned interleavings of small batches of overlapping AddVersion requests (a new client's first requests included; memory / one SQLite object / one SQLite object per request; handlers and library), the chain walked afterwards against the set of acknowledged versions; (b) generated multi-client histories (all id classes, nil/non-nil base, snapshots, reopen) on memory+SQLite via library and HTTP; the chain of every client is walked through GetChildVersion against the log of acknowledged versions. Non-trivial: walked client has >=2 versions and the history holds a rejected AddVersion or an AddSnapshot; distinct by (per-op client, outcome class) shape, base kind, reopen count.",
-        "C02" => "every AddVersion of generated histories is compared with the compare-and-append rule, id freshness, stored parent/payload, counter +1 iff snapshot; rejections with full-state dump before/after. Non-trivial: a real rejection (parent class not latest on a non-empty chain) or an accept on a client holding a snapshot; distinct by (state class, parent class, chain length bucket).",
+        "C01" => "(a) all scheduler-owned interleavings of small batches of overlapping AddVersion requests (a new client's first requests included; memory / one SQLite object / one SQLite object per request; handlers and library), the chain walked afterwards against the set of acknowledged versions; (a2) a slow storage: the database's write lock really held by another connection for fractions of, and a little more than, the lock-wait budget while an AddVersion that must be accepted is in flight (in process and over a socket) - whatever is answered, the chain read after a settle time holds exactly the acknowledged versions; (b) generated multi-client histories (all id classes, nil/non-nil base, snapshots, reopen) on memory+SQLite via library and HTTP; the chain of every client is walked through GetChildVersion against the log of acknowledged versions. Non-trivial: walked client has >=2 versions and the history holds a rejected AddVersion or an AddSnapshot; distinct by (per-op client, outcome class) shape, base kind, reopen count.",
+        "C02" => "every AddVersion of generated histories is compared with the compare-and-append rule, id freshness, stored parent/payload, counter +1 iff snapshot; rejections with full-state dump before/after; plus histories of 200-230 clients through one server under a soft limit on open file descriptors (what is open plus 150). Non-trivial: a real rejection (parent class not latest on a non-empty chain) or an accept on a client holding a snapshot; distinct by (state class, parent class, chain length bucket).",
         "C07" => "(a) two clients' overlapping requests under all scheduler-owned interleavings (lock probes included): each client is answered as on its own and every acknowledged version is served unaltered afterwards; (b) after every op of a generated history every acknowledged version of every client is re-read through GetChildVersion(parent). Non-trivial: a re-read after a later op; distinct by (version position, chain length bucket, class of the later op, snapshot present).",
         "C08" => "every AddVersion(p) of generated histories is preceded by GetChildVersion(p) on the same state and the pair is checked against the found / not-found<=>accept / gone<=>reject relation and the model; plus the complete small-scope table (chain 0..6, and the registered-but-empty client, x base kind x snapshot position x p class x library/HTTP x small/300 KB body). Non-trivial: probe on a non-empty chain with p not the latest; distinct by (state class, p class).",
         "C10" => "complete small-scope enumeration (chain 0..9 x nil/non-nil base x every reachable snapshot position incl. base corner x every v class incl. each position, nil, base, fresh, foreign; both backends) plus AddSnapshot ops in long random histories; after each AddSnapshot storage must show a clean replacement exactly when the window rule holds, else be untouched (full dump). Non-trivial: v is 5th/6th most recent, or a snapshot exists and v differs from it, or v is foreign/base; distinct by (n, base kind, snapshot position, v class, v position).",
